@@ -81,6 +81,8 @@ func runC07(c *core.Ctx) {
 	ruleCodecConstants(c)
 	rulePaeth(c)
 	ruleLZWWidthAdvance(c, "C07-R5")
+	rulePredictorGeometry(c, "C07-R6")
+	ruleTIFF16Carry(c, "C07-R7")
 }
 
 func ruleFilterNames(c *core.Ctx) {
@@ -549,4 +551,153 @@ func rulePaeth(c *core.Ctx) {
 		sort.Strings(fs)
 		o.Fact("used from %d files", len(fs))
 	})
+}
+
+// rulePredictorGeometry: the PNG predictors address the left neighbour at a
+// distance of "bytes per complete pixel, rounding up" (PNG specification
+// 9.2, referenced by ISO 32000 7.4.4.4) and work on rows of ceil(bits/8)
+// bytes.  Writer and reader share the helpers, so their own round trip
+// cannot notice a wrong value; any other producer or consumer does.
+func rulePredictorGeometry(c *core.Ctx, rule string) {
+	const pk = "pdf/internal/filter/predict"
+	doms := map[string][]int64{".BitsPerComponent": {1, 2, 4, 8, 16}}
+	for i := int64(1); i <= 32; i++ {
+		doms[".Colors"] = append(doms[".Colors"], i)
+	}
+	for i := int64(1); i <= 19; i++ {
+		doms[".Columns"] = append(doms[".Columns"], i)
+	}
+	type spec struct {
+		fn   string
+		desc string
+		want func(colors, bpc, cols int64) int64
+	}
+	specs := []spec{
+		{"(*Params).bytesPerPixel", "bytes per complete pixel, rounding up: ceil(Colors*BitsPerComponent/8)", func(cl, b, _ int64) int64 { return (cl*b + 7) / 8 }},
+		{"(*Params).bytesPerRow", "bytes per row: ceil(Colors*BitsPerComponent*Columns/8)", func(cl, b, co int64) int64 { return (cl*b*co + 7) / 8 }},
+	}
+	for _, sp := range specs {
+		sp := sp
+		c.Check(rule, pk+"."+sp.fn, sp.desc+" for every Colors in 1..32, BitsPerComponent in {1,2,4,8,16}, Columns in 1..19 (the function's return expression is tabulated symbolically over these parameter values; one-line helpers are inlined)", func(o *core.Ob) {
+			fn := c.Prog.Func(pk, sp.fn)
+			o.At(fn.Site(fn.Decl, ""))
+			if len(fn.Decl.Body.List) != 1 {
+				core.Undecided("%s is not a single return statement", fn.Key)
+			}
+			rs, ok := fn.Decl.Body.List[0].(*ast.ReturnStmt)
+			if !ok || len(rs.Results) != 1 {
+				core.Undecided("%s is not a single return statement", fn.Key)
+			}
+			n, bad := 0, 0
+			decided, reason := c.Prog.Tabulate(fn, rs.Results[0], nil, doms, func(env map[string]int64, v int64, _ bool) {
+				cl, _ := core.EnvLookup(env, ".Colors")
+				b, _ := core.EnvLookup(env, ".BitsPerComponent")
+				co, okc := core.EnvLookup(env, ".Columns")
+				if !okc {
+					co = 1
+				}
+				n++
+				if want := sp.want(cl, b, co); v != want {
+					bad++
+					if bad > 3 {
+						return
+					}
+					o.Fail("%s: for Colors=%d BitsPerComponent=%d Columns=%d the expression %s evaluates to %d, the specification requires %d",
+						c.Prog.Pos(rs.Pos()), cl, b, co, c.Prog.Src(rs.Results[0]), v, want)
+				}
+			})
+			if !decided {
+				core.Undecided("cannot tabulate %s: %s", c.Prog.Src(rs.Results[0]), reason)
+			}
+			o.Count(n)
+			o.Fact("%d parameter combinations tabulated", n)
+		})
+	}
+	// every PNG neighbour access uses that distance: the functions that index
+	// with a left-neighbour offset take it from bytesPerPixel()
+	for _, name := range []string{"(*reader).decodePNGRow", "(*writer).filterRow"} {
+		name := name
+		if c.Prog.FuncOpt(pk, name) == nil {
+			continue
+		}
+		c.Check(rule, pk+"."+name+"/distance", "the PNG row filter takes its neighbour distance from Params.bytesPerPixel", func(o *core.Ob) {
+			fn := c.Prog.Func(pk, name)
+			calls := core.CallsTo(fn.Info(), fn.Decl.Body, true, pk+".(*Params).bytesPerPixel")
+			o.Count(1)
+			o.At(fn.Site(fn.Decl, ""))
+			o.Require(len(calls) > 0, "%s no longer calls Params.bytesPerPixel", fn.Key)
+		})
+	}
+}
+
+// ruleTIFF16Carry: TIFF predictor 2 with 16-bit components differences whole
+// big-endian samples modulo 2^16.  Adding or subtracting the two bytes
+// separately loses the carry between them, so in the 16-bit routines no
+// sum or difference may be computed in an 8-bit type, and each routine has
+// at least one sum (reader) or difference (writer) at 16 bits or wider.
+func ruleTIFF16Carry(c *core.Ctx, rule string) {
+	const pk = "pdf/internal/filter/predict"
+	for _, e := range []struct {
+		name string
+		op   token.Token
+		asg  token.Token
+	}{
+		{"(*reader).decodeTIFF16Bit", token.ADD, token.ADD_ASSIGN},
+		{"(*writer).applyTIFF16Bit", token.SUB, token.SUB_ASSIGN},
+	} {
+		e := e
+		c.Check(rule, pk+"."+e.name, "16-bit samples are combined before the predictor arithmetic: no +/- in an 8-bit type, and one "+e.op.String()+" at >= 16 bits", func(o *core.Ob) {
+			fn := c.Prog.Func(pk, e.name)
+			info := fn.Info()
+			width := func(t types.Type) int {
+				b, ok := t.Underlying().(*types.Basic)
+				if !ok || b.Info()&types.IsInteger == 0 {
+					return 0
+				}
+				switch b.Kind() {
+				case types.Int8, types.Uint8:
+					return 8
+				case types.Int16, types.Uint16:
+					return 16
+				case types.Int32, types.Uint32:
+					return 32
+				}
+				return 64
+			}
+			wide := 0
+			ast.Inspect(fn.Decl.Body, func(n ast.Node) bool {
+				switch x := n.(type) {
+				case *ast.BinaryExpr:
+					if x.Op != token.ADD && x.Op != token.SUB {
+						return true
+					}
+					o.Count(1)
+					if tv, ok := info.Types[x]; ok && tv.Value != nil {
+						return true // constant expression
+					}
+					w := width(info.TypeOf(x))
+					if w == 8 {
+						o.FailAt(fn.Site(x, ""), "%s: %s is computed in an 8-bit type: the carry between the two bytes of a sample is lost", c.Prog.Pos(x.Pos()), c.Prog.Src(x))
+					}
+					if x.Op == e.op && w >= 16 && info.TypeOf(x).Underlying().(*types.Basic).Info()&types.IsUnsigned != 0 {
+						wide++
+					}
+				case *ast.AssignStmt:
+					if x.Tok == token.ADD_ASSIGN || x.Tok == token.SUB_ASSIGN {
+						o.Count(1)
+						if width(info.TypeOf(x.Lhs[0])) == 8 {
+							o.FailAt(fn.Site(x, ""), "%s: %s is computed in an 8-bit type: the carry between the two bytes of a sample is lost", c.Prog.Pos(x.Pos()), c.Prog.Src(x))
+						}
+					}
+				case *ast.IncDecStmt:
+					if width(info.TypeOf(x.X)) == 8 {
+						o.FailAt(fn.Site(x, ""), "%s: 8-bit increment", c.Prog.Pos(x.Pos()))
+					}
+				}
+				return true
+			})
+			o.At(fn.Site(fn.Decl, ""))
+			o.Require(wide > 0, "%s: no %s on an unsigned value of 16 bits or more found", fn.Key, e.op)
+		})
+	}
 }
